@@ -257,7 +257,8 @@ def check_notify(chk, tu):
     state = {}
     it = pe.Interp([tu], futex_leafs(state), max_paths=4000)
     it.cur_tu = tu
-    NW = 3
+    NW = 3 if chk.tier == 'quick' else 5
+    it.sym_loop_limit = max(it.sym_loop_limit, NW)
 
     def setup():
         state.clear()
@@ -443,7 +444,7 @@ def check_shapes(chk):
         return it
     BC = 4
     n_inst = 0
-    for n in (1, 2, 3):
+    for n in ((1, 2, 3) if chk.tier == 'quick' else (1, 2, 3, 4, 5, 6)):
         for pos in range(n):
             keys = [5 + BC * i for i in range(n)]          # all collide in bucket 5 % 4 = 1
             it = mk_interp()
@@ -474,7 +475,7 @@ def check_shapes(chk):
             fr = [a[0] for nm, a, l in p.events if nm == 'free']
             chk.expect(len(fr) == 1, 'R17.6', 'mapRemove-frees-once[chain=%d,pos=%d]' % (n, pos), 'mapRemove frees %d nodes' % len(fr), 'mapRemove:free')
     # mapGet finds every key of a chain and only those; mapInsert prepends
-    for n in (0, 1, 3):
+    for n in ((0, 1, 3) if chk.tier == 'quick' else (0, 1, 2, 3, 4, 6)):
         keys = [5 + BC * i for i in range(n)]
         for probe in keys + [5 + BC * 7]:
             it = mk_interp()
@@ -508,7 +509,7 @@ def check_shapes(chk):
         chk.expect(got == [5 + BC * 9] + keys and consistent, 'R17.6', 'mapInsert[chain=%d]' % n,
                    'mapInsert into chain %r gives %r (consistent %s)' % (keys, got, consistent), 'mapInsert')
     # listRemove on wait lists (chains of Wait records, link first): every position, head updated
-    for n in (1, 2, 3):
+    for n in ((1, 2, 3) if chk.tier == 'quick' else (1, 2, 3, 4, 5, 6)):
         for pos in range(n):
             it = mk_interp()
             holder = {}
